@@ -166,6 +166,14 @@ def applySetters : TxCfg → List Setter → Except Exn TxCfg
     | .ok cfg' => applySetters cfg' ss
     | .error e => .error e
 
+/-- a history in which a refused assignment (it raises before anything is stored) is survived by the caller and the history goes on -/
+def applySettersSkip : TxCfg → List Setter → TxCfg
+  | cfg, [] => cfg
+  | cfg, s :: ss =>
+    match applySetter cfg s with
+    | .ok cfg' => applySettersSkip cfg' ss
+    | .error _ => applySettersSkip cfg ss
+
 /-- `Memoer(code=…, curt=…, size=…)`: the constructor assigns code, curt (no size stored yet, nothing to clamp), then size -/
 def mkCfg (code : Bytes) (curt : Bool) (size : Nat) : Except Exn TxCfg :=
   if Gen.zedex.contains code then setSize ⟨code, curt, 0⟩ size else .error .memoerError
@@ -525,6 +533,30 @@ def serviceAllRx (authic : Bool) (V : Bytes → Bytes → Bytes → Except Exn U
     | .error e => .error e
     | .ok (es2, d) => .ok ⟨es2, q1, d⟩
 
+/-- `serviceReceivesOnce()`: at most ONE datagram is taken from the transport (an empty one is consumed and ignored) -/
+def recvOnceStep (authic : Bool) (V : Bytes → Bytes → Bytes → Except Exn Unit) (es : List Entry) :
+    List (Bytes × Nat) → Except Exn (List Entry × List (Bytes × Nat))
+  | [] => .ok (es, [])
+  | (g, s) :: q =>
+    if g.isEmpty then .ok (es, q)
+    else match recvOne authic V es g s with
+      | .ok es' => .ok (es', q)
+      | .error e => .error e
+
+/-- `serviceAllRxOnce()`: one datagram at most, one fuse pass, and ONE fused memo (the oldest pending in `.rxms`) goes to the inbox.
+`rxms` are the fused memos not yet moved.  Result: entries, transport queue, still pending, moved to the inbox. -/
+def serviceAllRxOnce (authic : Bool) (V : Bytes → Bytes → Bytes → Except Exn Unit) (es : List Entry) (queue : List (Bytes × Nat))
+    (rxms : List Memo) : Except Exn (List Entry × List (Bytes × Nat) × List Memo × List Memo) :=
+  match recvOnceStep authic V es queue with
+  | .error e => .error e
+  | .ok (es1, q1) =>
+    match fuseAll es1 with
+    | .error e => .error e
+    | .ok (es2, d) =>
+      match rxms ++ d with
+      | [] => .ok (es2, q1, [], [])
+      | m :: rest => .ok (es2, q1, rest, [m])
+
 /-- a history of service calls: each batch is appended to the transport queue, then `serviceAllRx()` runs -/
 def runBatches (authic : Bool) (V : Bytes → Bytes → Bytes → Except Exn Unit) :
     List (List (Bytes × Nat)) → List Entry → List (Bytes × Nat) → Except Exn (List Entry × List (Bytes × Nat) × List (List Memo))
@@ -665,5 +697,63 @@ def runCalls : List Call → Tx → List SendRes → TxRun
     | none =>
       let r2 := runCalls cs r.st r.script
       ⟨r2.st, r2.script, r.evs ++ r2.evs, r2.escaped⟩
+
+/-! ### `Memoer.verify`: which key a signer id is verified against -/
+
+/-- the third-party parts of `Memoer.verify` as parameters: decoding of qualified Base64 material (stdlib base64, with the checks of
+`_decodeVID`, `_decodeQVK`, `_decodeSGN`) and the ed25519 check of pysodium -/
+structure VerifyParts where
+  decVID : Bytes → Except Exn (Bytes × Nat)   -- `_decodeVID(vid)`: (raw 32 bytes, code character: 66 'B' non-transferable, 68 'D', 69 'E')
+  decQVK : Bytes → Except Exn Bytes           -- `_decodeQVK(keyage.qvk)`: raw verification key
+  decSGN : Bytes → Except Exn Bytes           -- `_decodeSGN(sig)`: raw signature
+  check : Bytes → Bytes → Bytes → Bool        -- `crypto_sign_verify_detached(rawsig, ser, verkey)` does not raise: `check verkey rawsig ser`
+
+/-- the verification key `Memoer.verify` uses for a signer id: the key embedded in the id ONLY for the non-transferable code 'B';
+for every other code the key the receiver's `.keep` holds for that id (`MemoerVerifyError` when it holds none) -/
+def keyFor (P : VerifyParts) (keep : List (Bytes × Bytes)) (vid : Bytes) : Except Exn Bytes :=
+  match P.decVID vid with
+  | .error e => .error e
+  | .ok (raw, code) =>
+    if code = 66 then .ok raw
+    else match keep.lookup vid with
+      | none => .error .memoerVerifyError
+      | some qvk => P.decQVK qvk
+
+/-- `Memoer.verify(vid, sig, ser)` (vid and sig arrive as bytes from `pick`) -/
+def verifyM (P : VerifyParts) (keep : List (Bytes × Bytes)) (vid sig ser : Bytes) : Except Exn Unit :=
+  if !utf8Valid vid then .error .unicodeDecodeError
+  else match keyFor P keep vid with
+    | .error e => .error e
+    | .ok key =>
+      match P.decSGN sig with
+      | .error e => if e = .memoerError then .error .memoerVerifyError else .error e
+      | .ok rawsig => if P.check key rawsig ser then .ok () else .error .memoerVerifyError
+
+/-! ### the datagram transports under the Memoer: `udping.Peer.send`, `uxding.Peer.send` -/
+
+/-- what the socket's `sendto(data, dst)` does: returns a byte count or raises `OSError(errno)` -/
+inductive SockRes
+  | sent (n : Nat)
+  | errno (e : Nat)
+deriving Repr, DecidableEq
+
+inductive PeerKind
+  | udp
+  | uxd
+deriving Repr, DecidableEq
+
+/-- the errnos on which `Peer.send` returns 0 ("try again later with same data"), regenerated by probing the real method with every errno -/
+def zeroErrnos : PeerKind → List Nat
+  | .udp => Gen.udpSendZero
+  | .uxd => Gen.uxdSendZero
+
+/-- `Peer.send(data, dst)`: the count `sendto` returned; 0 on a would-block errno; any other `OSError` is re-raised to the Memoer -/
+def peerSend (k : PeerKind) : SockRes → SendRes
+  | .sent n => .accept n
+  | .errno e => if (zeroErrnos k).contains e then .block else .err e
+
+/-- a history of transmit calls of a `PeerMemoer` whose socket behaves as scripted -/
+def runCallsPeer (k : PeerKind) (cs : List Call) (st : Tx) (sock : List SockRes) : TxRun :=
+  runCalls cs st (sock.map (peerSend k))
 
 end Hio.Memo
